@@ -326,6 +326,14 @@ def c03(tier):
         u = json.loads(json.dumps(c)); u["uniform"] = True; u["id"] = c["id"] + "~u"
         uni.append(u)
     cases += uni if not quick else uni[:len(grams.curated("lang")) + 20]
+    # ... and with every list-valued parameter declared as a defined slice type (the term's value type is assignable to
+    # it without being identical with it): the value must still arrive
+    nml = []
+    for c in cases[:len(grams.curated("lang")) + (20 if quick else 120)]:
+        if any(T["k"] not in ("sym", "opt", "err") for r in c["rules"] for p in r["prods"] for T in p["terms"]):
+            u = json.loads(json.dumps(c)); u["named_lists"] = True; u["id"] = c["id"] + "~n"
+            nml.append(u)
+    cases += nml
     for c in cases:
         c["bounds"] = False
     cases = replay_filter(cases)
